@@ -218,6 +218,24 @@ def r3(F, R):
     R.floor("C06-R3", 2)  # one mutator per strategy at least (merging the two update_params calls is a legal refactor)
 
 
+def _stepsize_before_estimator(b, final):
+    """In the final window: is update_stepsize reachable without having passed the estimator update of this draw (the spliced-in
+    update_estimator_* of the step-size strategy, or - when nothing was spliced in - a call of it)?"""
+    est = set()
+    for bi, blk in enumerate(b.blocks):
+        t = blk["term"]
+        ic = str(t.get("inlined_call") or "")
+        if ic and strip_generics(ic).split("::")[-1].startswith("update_estimator"):
+            est.add(bi)
+        if t["k"] == "call" and str(t["callee"].get("name") or "").startswith("update_estimator"):
+            est.add(bi)
+    if not est:
+        return False
+    us = [bb_ for (bb_, t_, _r) in final if t_["callee"]["name"] == "update_stepsize"]
+    free = b.reach_from(0, avoid=sorted(est), succ_filter=lambda a_, c_: True)
+    return any(u in free for u in us)
+
+
 def calls_in_region(b, region):
     out = []
     for bb, t in b.calls():
@@ -280,6 +298,9 @@ def r4(F, R):
         fnames = sorted({("advance" if t["callee"]["name"] == "advance" else t["callee"]["name"]) for (_bb, t, _r) in final})
         if fnames != ["advance", "update_stepsize"] or len([1 for (_bb, t, _r) in final if t["callee"]["name"] == "update_stepsize"]) != 1:
             R.bad("C06-R4", key1, site0, "final step-size window calls %s, expected the estimator update and one update_stepsize" % sorted(t["callee"]["name"] for (_bb, t, _r) in final))
+        elif _stepsize_before_estimator(b, final):
+            R.bad("C06-R4", key1, site0, "in the final step-size window update_stepsize runs before the estimator has been advanced with this draw: on the last tuning "
+                  "draw the sampler is handed the best guess of one update earlier, so the first posterior draw uses another base step size than all later ones")
         elif not fed or any("sym" not in str(f) for f in fed):
             R.bad("C06-R4", key1, site0, "in the final step-size window the estimator is advanced with %s, expected the symmetric (late) acceptance statistic only" % sorted(fed))
         else:
